@@ -29,6 +29,24 @@ type c15H struct {
 type c15Scenario struct {
 	Events   []*c01Msg `json:"events"`
 	Handlers []c15H    `json:"handlers"` // registered for every event's command
+	// Tracking: state tracking is on, the client has joined #c, and RawEvents (lines the state
+	// handlers act on) follow the generated events; their expected form is ParseLine(raw)
+	Tracking  bool `json:"tracking"`
+	RawEvents []Q  `json:"raw_events"`
+}
+
+var c15StateLines = []string{
+	":irc.server 353 me = #c :me @x +y ",
+	":irc.server 353 me = #c :z ",
+	":x!u@h MODE #c +ov me y",
+	":x!u@h TOPIC #c :a new topic ",
+	":y!u@h PART #c :bye ",
+	":w!u@h JOIN :#c",
+	":x!u@h KICK #c y :out ",
+	":irc.server 332 me #c :topic text ",
+	":irc.server 352 me #c u h srv x H :0 Real Name ",
+	":x!u@h NICK :x2",
+	":irc.server 324 me #c +ntk key ",
 }
 
 func genC15(t *rapid.T) *c15Scenario {
@@ -44,6 +62,12 @@ func genC15(t *rapid.T) *c15Scenario {
 			m.HasTags, m.Tags = true, nil
 		}
 		sc.Events = append(sc.Events, m)
+	}
+	if rapid.IntRange(0, 2).Draw(t, "tracking") == 0 {
+		sc.Tracking = true
+		for k := rapid.IntRange(1, 4).Draw(t, "nraw"); k > 0; k-- {
+			sc.RawEvents = append(sc.RawEvents, Q(rapid.SampledFrom(c15StateLines).Draw(t, "state_line")))
+		}
 	}
 	nfg := rapid.IntRange(1, 4).Draw(t, "nfg")
 	nbg := rapid.IntRange(0, 3).Draw(t, "nbg")
@@ -106,15 +130,32 @@ func scribble(l *client.Line) {
 	l.Cmd, l.Nick, l.Raw, l.Src, l.Host, l.Ident = "SCRIBBLED", "SCRIBBLED", "SCRIBBLED", "S", "S", "S"
 }
 
+// expectOfRaw describes what ParseLine makes of a raw line.
+func expectOfRaw(raw string) c01Expect {
+	l := client.ParseLine(raw)
+	e := c01Expect{Raw: raw}
+	if l != nil {
+		e.Tags, e.Nick, e.Ident, e.Host, e.Src, e.Cmd, e.Args = l.Tags, l.Nick, l.Ident, l.Host, l.Src, l.Cmd, append([]string(nil), l.Args...)
+	}
+	return e
+}
+
 func runC15(sc *c15Scenario) *Violation {
-	tc := newTestClient(cliOpts{Flood: true})
+	tc := newTestClient(cliOpts{Flood: true, Tracking: sc.Tracking})
 	defer tc.shutdown()
+	var expects []c01Expect
+	for _, m := range sc.Events {
+		expects = append(expects, m.expect())
+	}
+	for _, r := range sc.RawEvents {
+		expects = append(expects, expectOfRaw(string(r)))
+	}
 	var mu sync.Mutex
 	var recs []*c15Rec
 	cur := 0 // index of the event in flight (events are sent one at a time)
 	reg := map[string]bool{}
-	for _, m := range sc.Events {
-		cmd := m.expect().Cmd
+	for _, ex := range expects {
+		cmd := ex.Cmd
 		if reg[strings.ToLower(cmd)] {
 			continue
 		}
@@ -159,11 +200,24 @@ func runC15(sc *c15Scenario) *Violation {
 	if err := tc.connect(); err != nil {
 		return violationf("C15", "connect: %v", err)
 	}
-	for ei, m := range sc.Events {
+	if sc.Tracking {
+		tc.conn().SendLine(":irc.server 001 me :Welcome me!ident@host")
+		tc.conn().SendLine(":me!ident@host JOIN #c")
+		tc.conn().SendLine(":irc.server 353 me = #c :me @x +y")
+		if !tc.syncIn(stallTimeout()) {
+			return violationf("C15", "tracking warm-up not processed")
+		}
+		if !waitCond(stallTimeout(), func() bool { return dispatchFrames() == 0 }) {
+			return violationf("C15", "handlers of the tracking warm-up did not finish")
+		}
+		mu.Lock()
+		recs = nil // handlers registered for JOIN / 353 also saw the warm-up
+		mu.Unlock()
+	}
+	for ei, e := range expects {
 		mu.Lock()
 		cur = ei
 		mu.Unlock()
-		e := m.expect()
 		tc.conn().SendLine(e.Raw)
 		if !tc.syncIn(stallTimeout()) {
 			return violationf("C15", "marker after event %d never delivered", ei)
